@@ -76,6 +76,9 @@ class KnownChecker(abc.ABC):
                 return False
             if not Name.is_prefix(key_name, sig_ptrs.signature_info.key_locator.name):
                 return False
+            if sig_ptrs.signature_value_buf is None:
+                # SignatureInfo without SignatureValue: nothing to verify
+                return False
             return cls._verify(pub_key_bits, sig_ptrs)
 
         return validator
